@@ -1,4 +1,5 @@
 import GitBugModel.Model.Query
+import GitBugModel.Lemmas.ParseRender
 /-!
 # C12 — queries parse as documented and return exactly the matching bugs, ordered
 -/
@@ -281,6 +282,29 @@ theorem field_edge_colon (field : List Char) (chunks : List (List Char)) (hs : s
   simp only [hs]
   rcases h with h | h <;> simp [h]
 
+/-! ## the round trip through the documented grammar -/
+
+/-- `parse_render`: every structured query — any number of statuses, authors, actors,
+participants, labels, titles, metadata pairs, search terms, `no:label`, any sort — written through
+the grammar of doc/queries.md (values in double quotes, one space between tokens) parses back to
+exactly that query.  Values may hold anything but the double quote: spaces, colons, single quotes,
+unicode.  (Proved in `Lemmas/Lexer` and `Lemmas/ParseRender` over the lexer's quote automaton.) -/
+theorem parse_render (isSpace : Char → Bool) (clean : String → String)
+    (hsp : isSpace ' ' = true) (hcolon : isSpace ':' = false)
+    (hlow : ∀ c : Char, c.isLower = true → isSpace c = false)
+    (hopen : clean "open" = "open") (hclosed : clean "closed" = "closed")
+    (q : Query) (hst : ∀ s ∈ q.status, s = 1 ∨ s = 2)
+    (hv : ∀ v, v ∈ q.author ∨ v ∈ q.actor ∨ v ∈ q.participant ∨ v ∈ q.label ∨ v ∈ q.title ∨ v ∈ q.search → Quotable v)
+    (hm : ∀ kv ∈ q.metadata, Word kv.1.toList ∧ (∀ c ∈ kv.1.toList, isSpace c = false) ∧ Quotable kv.2) :
+    parse isSpace clean (String.ofList (joined ' ' ((renderQuery q).map RTok.segs))) = .ok q :=
+  GitBugModel.Query.parse_render isSpace clean hsp hcolon hlow hopen hclosed q hst hv hm
+
+/-- written tokens separated by one space come back as exactly those tokens -/
+theorem tokenize_rendered (isSpace : Char → Bool) (hsp : isSpace ' ' = true) (hcolon : isSpace ':' = false)
+    (ts : List RTok) (hne : ts ≠ []) (h : ∀ t ∈ ts, t.ok isSpace) :
+    tokenize isSpace (joined ' ' (ts.map RTok.segs)) = .ok (ts.map RTok.toToken) :=
+  GitBugModel.Query.tokenize_rendered isSpace hsp hcolon ts hne h
+
 /-! ## non-vacuity: documented examples, evaluated by the kernel -/
 
 private def sp (c : Char) : Bool := c == ' '
@@ -296,5 +320,11 @@ example : errOf (parse sp cl "author:\"René") = some (.lex .unmatchedQuote) := 
 example : errOf (parse sp cl "sort:edit sort:id") = some .multipleSort := by decide
 example : errOf (parse sp cl ":value") = some (.lex .emptyQualifierOrValue) := by decide
 example : errOf (parse sp cl "a:b:c:d") = some (.lex .tooManySeparators) := by decide
+/-- what `parse_render` is about, on one query: the rendering, and that it parses back -/
+example :
+    let q : Query := { status := [2], author := ["R D"], search := ["a: 'b'"], orderBy := .id, dir := .asc }
+    String.ofList (joined ' ' ((renderQuery q).map RTok.segs)) = "status:\"closed\" author:\"R D\" \"a: 'b'\" sort:\"id-asc\"" ∧
+    (parse sp cl (String.ofList (joined ' ' ((renderQuery q).map RTok.segs)))).toOption = some q := by
+  decide
 
 end GitBugModel.Props.C12
